@@ -161,6 +161,37 @@ def main():
             keys[(kind, pos)] = rows
     T["keys"] = {f"{k[0]}:{k[1]}": v for k, v in keys.items()}
 
+    # ---- inventory of order-/environment-sensitive constructs (C13) --------------------------------
+    inv = []
+    import glob
+    files = sorted(glob.glob(os.path.join(REPO, "macros/src/**/*.rs"), recursive=True) + glob.glob(os.path.join(REPO, "ts-rs/src/**/*.rs"), recursive=True))
+    for f in files:
+        rel = os.path.relpath(f, REPO)
+        src = open(f, encoding="utf-8").read()
+        # drop the cfg(ts_rs_verif) hook blocks and comments
+        src = re.sub(r'#\[cfg\((?:all\(test, )?ts_rs_verif\)?\)\]\s*(?:pub\(crate\) |pub )?(?:mod|fn)\s+\w+[^{]*\{', lambda m: "\x00HOOK{", src)
+        out, depth, skip = [], 0, None
+        i = 0
+        while i < len(src):
+            if src.startswith("\x00HOOK{", i):
+                skip = depth; depth += 1; i += 6; continue
+            ch = src[i]
+            if ch == "{": depth += 1
+            if ch == "}":
+                depth -= 1
+                if skip is not None and depth == skip:
+                    skip = None; i += 1; continue
+            if skip is None: out.append(ch)
+            i += 1
+        src = "".join(out)
+        src = re.sub(r'#\[cfg\(ts_rs_verif\)\]\s*if let Some\(lines\) = verif_order\(self\) \{.*?return;\s*\}', '', src, flags=re.S)
+        src = re.sub(r'//[^\n]*', '', src)
+        for pat in ("HashMap", "HashSet", "BTreeMap", "BTreeSet", "TypeId", "env::var", "std::thread", "Mutex", "OnceLock", "RandomState", "Instant", "SystemTime", "rand"):
+            n = len(re.findall(r'\b' + re.escape(pat) + r'\b', src))
+            if n:
+                inv.append((rel, pat, n))
+    T["order_inventory"] = inv
+
     # ---- render -----------------------------------------------------------------------------------
     L = []
     L.append("/- GENERATED by tools/translate.py from /repo's working tree — do not edit. -/")
@@ -184,6 +215,8 @@ def main():
         nm = "keys_" + k.replace(":", "_")
         L.append(f"def {nm} : List (String × String × String × String) := [\n  " + ",\n  ".join(
             "(" + ", ".join(lean_str(x) for x in r) + ")" for r in rows) + "]")
+    L.append("/-- every occurrence of an order- or environment-sensitive construct: (file, construct, count) -/")
+    L.append("def orderInventory : List (String × String × Nat) := [\n  " + ",\n  ".join(f"({lean_str(a)}, {lean_str(b)}, {c})" for a, b, c in T["order_inventory"]) + "]")
     L.append("end TsRs.Gen")
     text = "\n".join(L) + "\n"
     os.makedirs(os.path.dirname(OUT), exist_ok=True)
